@@ -65,7 +65,7 @@ def harnesses(tier):
     else:
         spec = [(1, 1, 60), (2, 1, 60), (1, 2, 60), (2, 2, 300), (3, 2, 900), (2, 3, 900), (3, 3, 3600)]
     for n1, n2, budget in spec:
-        hs.append((Harness(PROP, "union_no_overlap-%d+%d" % (n1, n2), h_unov, dict(n1=n1, n2=n2), "union_no_overlap on sorted non-overlapping lists of %d and %d events" % (n1, n2), split_depth=7), budget))
+        hs.append((Harness(PROP, "union_no_overlap-%d+%d" % (n1, n2), h_unov, dict(n1=n1, n2=n2), "union_no_overlap on sorted non-overlapping lists of %d and %d events" % (n1, n2), split_depth=7, cross_solver=2), budget))
     return hs
 
 
